@@ -24,6 +24,19 @@ sibling permutations and whole-tree shuffles of small documents.  Schema-conform
 pinned reader is known to differ are generated on purpose, one per document, so that each difference is
 attributable to a stable key.
 
+PROLOG LAYOUT (stream "prolog-layout"; "anything preceding the KSR element is ignored"): what precedes the root is generated
+from the XML grammar of a prolog (xmlgen.prolog_lattice: XML declaration in 4 spellings, comments incl. empty / multi-line /
+with markup and the letters KSR inside, processing instructions, document type declarations, in the 16 item sequences XML
+allows, or nothing at all) and — the point of the stream — in every LAYOUT relative to the root element: the root start tag
+directly after the last item on the SAME line (no separator, one / two / forty blanks, tabs), on the next line (with and
+without indentation), after CR LF, after a bare CR, after blank lines; leading white space of every XML kind before `<KSR`
+with no item at all, and `<KSR` as the very first characters of the text; each with the element tree in a random / the
+canonical layout AND on one line (the whole document on ONE line where the prolog has no line break either), on generated
+requests / responses and on the archived signed 2018 KSR / SKR.  No item contains the characters `<KSR` (outside the
+property: KskmProofs.C12 ksr_in_comment_counterexample).  Judged like every other document: implementation == ElementTree
+reading, model (KskmProofs.C12 C12_reader_prolog is the theorem for this grammar) == implementation.  The random-layout
+stream draws half of its prologs from the same grammar (xmlgen.gen_prolog).
+
 DUPLICATES among siblings (stream "duplicates"; the schema has no uniqueness constraint): two or three
 sibling versions of one element that agree in their identifying attribute / some fields and differ in
 others, or are repeated verbatim (xmlgen.DUP_KINDS: <Key> with equal keyIdentifier — other key material
@@ -360,7 +373,9 @@ def run(tier: str, driver_ok: bool) -> Result:
     res = Result("C12")
     res.rule = (
         "grammar-based documents over schema/ksr.rnc (requests and responses; 1..9 bundles, 1..3 keys, 1..3 signatures, 0/2/3 signers, 1..3 algorithms RSA+ECDSA) x random layouts "
-        "(inter-element whitespace incl. none/tabs/CRLF, spaces+tabs in start tags, attribute order, 4 empty-element forms, padded collapsible texts, 6 prologs); canonical layout; "
+        "(inter-element whitespace incl. none/tabs/CRLF, spaces+tabs in start tags, attribute order, 4 empty-element forms, padded collapsible texts, 6 classic prologs or a random prolog of the XML grammar); canonical layout; "
+        "prolog layout lattice: 16 prolog shapes (declaration / comments / PIs / doctype / nothing) x 15 separators between the last item and <KSR (none, blanks, tabs, LF, CR LF, CR, blank lines, indentation) "
+        "x leading white space x element tree multi-line / on one line (whole document on one line; <KSR as first characters), on generated documents and the archived 2018 KSR / SKR; "
         "every single-node sibling permutation and whole-tree shuffles of small documents; one risky feature per document in dedicated streams; "
         "duplicates among siblings (19 kinds: Key / Signature with equal keyIdentifier differing in material, tag, flags, TTL, data, times or verbatim / respelled; repeated Signer; "
         "SignatureAlgorithm with equal number; bundles with equal id) x 2 or 3 versions in generated, honestly signed and archived documents x every order of the group + shuffles of the parent, "
@@ -452,6 +467,49 @@ def run(tier: str, driver_ok: bool) -> Result:
                         if s["keyIdentifier"] == old:
                             s["keyIdentifier"] = ">" + old
             add("feature", doc, xmlgen.render(xmlgen.to_tree(doc, r), xmlgen.Layout(r)), feature="gt-in-attribute-value")
+
+    # 4b. the LAYOUT of the prolog relative to the root element ("anything preceding the KSR element is ignored"): every shape of
+    #     prolog the XML grammar allows (declaration, comments, processing instructions, doctype, nothing) x what separates its last
+    #     item from `<KSR` (nothing, blanks / tabs on the same line, line break, CR LF, bare CR, blank lines, indentation) x leading
+    #     white space, with the element tree in a random / the canonical layout and on ONE line
+    pl_docs = []
+    for i in range(4 if quick else 12):
+        kind = "request" if i % 2 == 0 else "response"
+        doc = xmlgen.gen_doc(r, kind, nbundles=1 + (i // 2) % 2, small=True, rich_ids=(i % 4 == 3))
+        pl_docs.append((doc, xmlgen.to_tree(doc, r)))
+    li = 0
+    for rep in range(1 if quick else 3):
+        for pro, desc in xmlgen.prolog_lattice(r):
+            _p, shape, lead, after = desc.split(":")
+            last_kind = {"D": "declaration", "c": "comment", "p": "pi", "T": "doctype"}.get(shape[-1:], "nothing")
+            hint = f"prolog-layout:root-after-{last_kind}:{after.split('=')[1]}"
+            for body in ("multi-line", "one-line"):
+                doc, tree = pl_docs[li % len(pl_docs)]
+                li += 1
+                if body == "one-line":
+                    lay = xmlgen.one_line_layout(r, r.choice(["", "", " ", "\t"]))
+                    trail = r.choice(["", "", " ", "\n"])
+                else:
+                    lay = xmlgen.Layout(r, prolog=False) if r.random() < 0.6 else xmlgen.canonical_layout(r)
+                    trail = None
+                text = xmlgen.render(tree, lay, prolog=pro, trail=trail)
+                one_line = "\n" not in text.rstrip("\n") and "\r" not in text
+                add("prolog-layout", doc, text, label=desc + ":" + body, key_hint=hint, prolog_desc=(shape or "none", lead.split("=")[1], after.split("=")[1], body, one_line))
+    # … and on the archived, genuinely signed documents (their element tree re-rendered)
+    for f in sorted((lib.REPO / "src/kskm").glob("*/tests/data/*.xml")):
+        if "2018" not in f.name:
+            continue
+        kind = "request" if f.name.startswith("ksr") else "response"
+        atree = xmlgen.tree_from_xml(f.read_text())
+        lat = list(xmlgen.prolog_lattice(r))
+        for pro, desc in r.sample(lat, 6 if quick else 40):
+            _p, shape, lead, after = desc.split(":")
+            body = r.choice(["multi-line", "one-line"])
+            lay = xmlgen.one_line_layout(r, r.choice(["", " "])) if body == "one-line" else xmlgen.canonical_layout(r)
+            text = xmlgen.render(atree, lay, prolog=pro, trail="" if body == "one-line" else None)
+            last_kind = {"D": "declaration", "c": "comment", "p": "pi", "T": "doctype"}.get(shape[-1:], "nothing")
+            add("prolog-layout", None, text, kind=kind, label="archived:" + f.name + ":" + desc + ":" + body, key_hint=f"prolog-layout:root-after-{last_kind}:{after.split('=')[1]}",
+                prolog_desc=(shape or "none", lead.split("=")[1], after.split("=")[1], body, "\n" not in text.rstrip("\n") and "\r" not in text))
 
     # 5. duplicates among siblings, in every order of the group
     dup_kinds = list(xmlgen.DUP_KINDS)
@@ -553,7 +611,7 @@ def run(tier: str, driver_ok: bool) -> Result:
         # (one signer, one response bundle, tied bundles, permuted response bundles) only when no such is present
         open_feats = feats & {"timestamp", "space-in-attrless-start-tag", "gt-in-attribute-value"}
         named = open_feats or feats
-        key = "+".join(sorted(FEATURE_KEY[f] for f in named)) if named else f"none:{c['stream']}"
+        key = "+".join(sorted(FEATURE_KEY[f] for f in named)) if named else (c.get("key_hint") or f"none:{c['stream']}")
         if "timestamp" in feats and doc["kind"] == "response":
             key = key.replace("timestamp-on-request", "timestamp-on-response")
         if c.get("dup") and not open_feats:
@@ -568,6 +626,16 @@ def run(tier: str, driver_ok: bool) -> Result:
         res.bump("stream:" + c["stream"])
         res.bump("kind:" + c["kind"])
         res.bump(f"bundles:{len(doc['bundles'])}")
+        if c.get("prolog_desc"):
+            pshape, plead, pafter, pbody, pone = c["prolog_desc"]
+            res.bump("prolog-layout:shape:" + pshape)
+            res.bump("prolog-layout:leading-white-space:" + plead)
+            res.bump("prolog-layout:root-after-last-item:" + pafter)
+            res.bump("prolog-layout:element-tree:" + pbody)
+            if pone:
+                res.bump("prolog-layout:whole-document-on-one-line")
+            if c["text"].startswith("<KSR"):
+                res.bump("prolog-layout:<KSR-is-the-very-first-text")
         for f in feats:
             res.bump("feature:" + f)
         # the harness self-test: the standard parser's reading must be what the generator put in
